@@ -578,6 +578,50 @@ func (e *Engine) assumeAxioms(u *Unit, x *Exec, pkgPath string) {
 		if !l.Axiom || (l.Pkg != "" && l.Pkg != pkgPath) {
 			continue
 		}
+		// an axiom about a declared-only spec function (nulFree, ...) is of use only where the unit's
+		// own contract speaks of that function; elsewhere it is a quantifier over all strings that
+		// costs the solver time for nothing (met: it pushed an unrelated cut of SearchUniversal over
+		// the time limit)
+		if l.Local && x != nil && x.fn != nil {
+			needs := map[string]bool{}
+			var walk func(n *SExpr)
+			walk = func(n *SExpr) {
+				if n == nil {
+					return
+				}
+				if n.Kind == "call" {
+					if pf, ok := e.cs.Pures[n.Args[0].String()]; ok && pf.Body == nil {
+						needs[pf.Name] = true
+					}
+				}
+				for _, a := range n.Args {
+					walk(a)
+				}
+			}
+			walk(l.Expr)
+			if len(needs) > 0 {
+				relevant := false
+				if fc := x.fc; fc != nil {
+					var cls []*Clause
+					cls = append(append(append(cls, fc.Requires...), fc.Ensures...), fc.Defines...)
+					for _, h := range fc.Hints {
+						cls = append(cls, h.C)
+					}
+					for _, lc := range fc.Loops {
+						cls = append(cls, lc.Invariants...)
+					}
+					for _, c := range cls {
+						if c != nil && e.specMentions(c.Expr, needs, l.Pkg) {
+							relevant = true
+							break
+						}
+					}
+				}
+				if !relevant {
+					continue
+				}
+			}
+		}
 		env := &SpecEnv{u: u, x: x, pkg: e.typesPkgFor(l.Pkg), vars: map[string]SVal{}, bound: map[string]SVal{}, cur: x.entry, old: x.entry, reach: TTrue}
 		if env.pkg == nil {
 			env.pkg = e.typesPkgFor(pkgPath)
